@@ -589,6 +589,49 @@ func c03MiscScope() *drv.Scope {
 		}}
 }
 
+// c03ApiScope: the exported constructors and node methods that no other scope reaches.
+func c03ApiScope() *drv.Scope {
+	return &drv.Scope{Name: "misc/exported constructors and PolyPathBase methods", Level: 1, Size: 4,
+		Show: func(idx uint64) any { return fmt.Sprintf("variant %d of the constructor / tree-node API calls", idx) },
+		Run: func(c *drv.Ctx, idx uint64) {
+			sub := func() string { return fmt.Sprintf("variant=%d", idx) }
+			guard(c, "constructors", false, sub, func() {
+				_ = clipper.IsOdd(int(idx) - 2)
+				v := clipper.NewVertex(Pt{X: int64(idx), Y: 1}, 0, nil)
+				_ = clipper.NewVertex(Pt{X: 2, Y: 3}, 0, v)
+				_ = clipper.NewLocalMinima(v, clipper.Subject, idx%2 == 0)
+				_ = clipper.NewIntersectNode(Pt{X: 1, Y: 1}, nil, nil)
+				_ = clipper.NewHorzSegment(nil)
+				_ = clipper.NewHorzJoin(nil, nil)
+				_ = clipper.NewOutPt2(Pt{X: 5, Y: 5})
+				clipper.SwapFrontBackSides(&clipper.OutRec{})
+				var vpl clipper.VertexPoolList
+				vpl.EnsureCapacity(int(idx) * 3)
+				vpl.EnsureCapacity(0)
+				r := clipper.NewRect64Invalid(idx%2 == 0)
+				rd := clipper.NewRectDInvalid(idx%2 == 1)
+				_, _ = r.IsEmpty(), rd.IsEmpty()
+			})
+			guard(c, "PolyPathBase", false, sub, func() {
+				root := clipper.NewPolyPathBase(nil)
+				a := root.AddChild(Path{{X: 0, Y: 0}, {X: 10, Y: 0}, {X: 10, Y: 10}})
+				b := a.AddChild(Path{{X: 2, Y: 2}, {X: 2, Y: 4}, {X: 4, Y: 2}})
+				b.AddChild(nil)
+				root.SetScale(float64(idx))
+				a.SetScale(0.01)
+				_ = root.ToString()
+				_ = a.ToStringInternal(0, int(idx))
+				walkTree(root, 0)
+				_, _, _ = root.Count(), b.Level(), b.IsHole()
+				a.Clear()
+				root.Clear()
+				_ = root.ToString()
+				walkTree(root, 0)
+			})
+			c.Nontriv()
+		}}
+}
+
 func init() {
 	drv.Register(&drv.Check{
 		ID:    "C03",
@@ -601,7 +644,7 @@ func init() {
 		Scopes: func(tier string) []*drv.Scope {
 			u3, a3 := newPathAlpha(3, 3, enum.Eunit), newPathAlpha(3, 3, enum.Eax)
 			u2, a2 := newPathAlpha(3, 2, enum.Eunit), newPathAlpha(3, 2, enum.Eax)
-			out := []*drv.Scope{c03MiscScope()}
+			out := []*drv.Scope{c03MiscScope(), c03ApiScope()}
 			if tier == "quick" {
 				out = append(out,
 					c03UnaryScope(newPathAlpha(3, 4, enum.Eunit), 1), c03UnaryScope(a3, 1),
